@@ -6,7 +6,7 @@
    are tables computed by CPython for the numbers of the case (the oracle).  The checker also
    validates on those numbers the laws that props/C18.v assumes (round trip, printed form). *)
 From Coq Require Import List ZArith NArith Bool.
-From RxVerif Require Import Base.Corr Framing.Line Container.Csv Container.IntText.
+From RxVerif Require Import Base.Corr Framing.Line Container.Csv Container.IntText Container.FloatText.
 Import ListNotations.
 
 Definition fl := list Z.                       (* float.hex() *)
@@ -16,7 +16,8 @@ Record tabs := mkTabs {
   t_istr : list (Z * list Z);                  (* n        , str(n)            *)
   t_ipar : list (list Z * Z);                  (* text     , int(text)         *)
   t_fstr : list (fl * list Z);                 (* hex(x)   , str(x)            *)
-  t_fpar : list (list Z * fl)                  (* text     , hex(float(text))  *)
+  t_fpar : list (list Z * fl);                 (* text     , hex(float(text))  *)
+  t_ftri : list ((bool * Z * Z) * list Z)      (* (sign, mantissa, exponent) of x, str(x): the float layer of FloatText.v *)
 }.
 
 Definition tab_str_int (tb : tabs) (n : Z) : list Z :=
@@ -38,8 +39,15 @@ Definition printed_okb (sep t : list Z) : bool :=
 Definition int_layer_ok (tb : tabs) : bool :=
   forallb (fun e => zs_eqb (py_str_int (fst e)) (snd e)) (t_istr tb)
   && forallb (fun e => match py_int_of (fst e) with Some z => Z.eqb z (snd e) | None => true end) (t_ipar tb).
+(* the float half is concrete too (Container/FloatText.v, laws proved in FloatTextProofs.v / FloatTextShortest.v):
+   CPython's str(x) must be py_str_float x and float(str(x)) must be what py_float_of says, for every float of the case *)
+Definition float_layer_ok (tb : tabs) : bool :=
+  forallb (fun e => let '(s, m, ex) := fst e in
+                    let x := mkfl s m ex in
+                    fl_okb x && zs_eqb (py_str_float x) (snd e)
+                    && match py_float_of (snd e) with Some y => fl_eqb y x | None => false end) (t_ftri tb).
 Definition laws_ok (sep : list Z) (tb : tabs) : bool :=
-  int_layer_ok tb &&
+  int_layer_ok tb && float_layer_ok tb &&
   forallb (fun e => printed_okb sep (snd e) && option_eqb Z.eqb (tab_int_of tb (snd e)) (Some (fst e))) (t_istr tb)
   && forallb (fun e => printed_okb sep (snd e) && option_eqb zs_eqb (tab_float_of tb (snd e)) (Some (fst e))) (t_fstr tb).
 
